@@ -135,7 +135,7 @@ Definition complete (s : state) : state :=
 Definition release (s : state) : state :=
   mkState (dat s) (started s) (sid s) (lease s) (cancelled_timers s) (seen s) (own s).
 
-Inductive resp := ROk | RConflict | RGone | RJobErr | RNone.
+Inductive resp := ROk | RConflict | RGone | RJobErr | RNone | RFail (* 500 *).
 
 Inductive event :=
 | EHttp (start : bool) (id : N) (end_ : bool) (ents : list ent)  (* POST /datasets/d/entities *)
